@@ -179,6 +179,7 @@ fn main() {
         "e2e" => e2e::cmd_e2e(&args),
         "faults" => e2e::cmd_faults(&args),
         "witness" => e2e::cmd_witness(&args),
+        "sched-conf" => e2e::cmd_sched_conf(&args),
         "history" => components::cmd_history(&args),
         "reward" => components::cmd_reward(&args),
         other => J::obj(vec![("error", J::Str(format!("unknown subcommand {other}")))]),
